@@ -154,10 +154,14 @@ fn gen_pdu(r: &mut Rng, v: u32) -> CanonicalJsonObject {
         c.insert("membership".into(), s(*r.pick(&["join", "invite", "leave", "ban", "knock"])));
         if r.chance(1, 3) {
             let mut tpi = CanonicalJsonObject::new();
-            tpi.insert("display_name".into(), s("x"));
-            let mut signed = CanonicalJsonObject::new();
-            signed.insert("token".into(), s("tok"));
-            tpi.insert("signed".into(), CanonicalJsonValue::Object(signed));
+            if r.chance(3, 4) {
+                tpi.insert("display_name".into(), s("x"));
+            }
+            if r.chance(2, 3) {
+                let mut signed = CanonicalJsonObject::new();
+                signed.insert("token".into(), s("tok"));
+                tpi.insert("signed".into(), CanonicalJsonValue::Object(signed));
+            }
             c.insert("third_party_invite".into(), CanonicalJsonValue::Object(tpi));
         }
     }
